@@ -316,6 +316,8 @@ def _u123(run: Run) -> None:
                 return D(base.dim)
             if isinstance(base, D) and attr == "name":
                 return f"name({base.tag})"
+            if isinstance(base, _T) and attr in ("real", "imag"):
+                return _app(attr, base)  # a part of a Python number: another function of the value than float(...)
             return NotImplemented
 
         def hook_call(self, n, env, fns):
@@ -337,8 +339,8 @@ def _u123(run: Run) -> None:
                 if not isinstance(d, D):
                     self.fail(n, "dimension_to_si_unit of something that is not a quantity's dimension")
                 return _var(f"si_unit({d.tag})")  # a product of units: an expression, no quantity
-            if name == "float" and len(n.args) == 1 and "float" not in env:
-                return _app("float", self.ev(n.args[0], env, fns))
+            if name in ("float", "complex", "int", "round") and len(n.args) == 1 and name not in env and isinstance(n.func, ast.Name):
+                return _app(name, self.ev(n.args[0], env, fns))  # the conversion to a Python number, kept as written: convert_to_float is float(...)
             return NotImplemented
 
     def ratio(a, b):
